@@ -185,7 +185,10 @@ def _worker_loop(rfd, wfd, round_no, watch_paths):
             ok, body = True, dill.dumps(res)
         except BaseException as e:  # noqa: BLE001 - exactly what multiprocess does
             ok = False
-            info = {"type": type(e).__name__, "msg": str(e)[:500]}
+            import traceback
+            frames = [f for f in traceback.extract_tb(e.__traceback__) if "/src/" in f.filename]
+            info = {"type": type(e).__name__, "msg": str(e)[:500],
+                    "frame": (frames[-1].filename.split("/src/")[-1] + ":" + frames[-1].name) if frames else ""}
             try:
                 body = dill.dumps((e, info))
             except Exception:
